@@ -41,6 +41,7 @@ class Ncp:
 
     async def setMulticastTableEntry(self, idx, entry):
         t = self.t
+        await asyncio.sleep(0)  # a command round trip always suspends the caller
         ans = self.answers.pop(0) if self.answers else "ok"
         self.writes.append((idx, int(entry.multicastId), int(entry.endpoint), ans))
         if ans in ("ok", "timeout-applied") and 0 <= idx < len(self.table):
@@ -87,22 +88,48 @@ def initial_tables(ctx, size, ngroups, eps=None):
 class Seq(Harness):
     name = "c15_seq"
     must_reach = ("sub-ok", "sub-rejected", "sub-timeout", "unsub-ok", "unsub-rejected", "unsub-timeout", "resub-nowrite", "full",
-                  "startup-again")
+                  "startup-again", "startup-with-groups")
     functions = ("Multicast._initialize", "Multicast.startup", "Multicast.subscribe", "Multicast.unsubscribe")
 
-    def run(self, ctx, L=3, max_size=3, ngroups=2, applied=False):
+    def must_reach_for(self, params):
+        mr = [m for m in self.must_reach if m != "startup-with-groups" or params.get("boot")]
+        if params.get("L", 3) < 2:
+            mr = [m for m in mr if m in ("startup-with-groups", "sub-ok", "unsub-ok")]
+        return mr
+
+    def run(self, ctx, L=3, max_size=3, ngroups=2, applied=False, boot=False):
         import bellows.types as t
         from bellows.multicast import Multicast
 
         size = ctx.choice("size", max_size + 1)
         eps = []
         table = initial_tables(ctx, size, ngroups, eps)
+        boot_groups = ctx.choice("boot_groups", 4) if boot else 0  # group memberships the coordinator device remembers at start-up
         ok_status = t.sl_Status.OK
 
         async def main(loop):
             ncp = Ncp(t, table, eps)
             m = Multicast(ncp)
-            await m.startup(Coord(()))
+            coord = Coord(())
+            if boot_groups == 1:
+                coord = Coord((GROUPS[0],))
+            elif boot_groups == 2:  # the same group stored on two endpoints of the coordinator
+                coord = Coord((GROUPS[0],))
+                coord.endpoints[2] = Ep({GROUPS[0]: None})
+            elif boot_groups == 3:
+                coord = Coord((GROUPS[0],))
+                coord.endpoints[2] = Ep({GROUPS[1]: None})
+            free_before = len([x for x in table if x is None])
+            await m.startup(coord)
+            if boot_groups:
+                ctx.label("startup-with-groups")
+                want = {g for ep in coord.endpoints.values() for g in ep.member_of}
+                progd = [x for x in ncp.table if x is not None]
+                ctx.check(len(progd) == len(set(progd)), "start-up programmed a group into two table entries: %r" % (ncp.table,), "startup-duplicate-entry")
+                new = want - {x for x in table if x is not None}
+                ctx.check(len(ncp.writes) == min(len(new), free_before), "start-up with stored groups %r wrote %d table entries (free before: %d)" % (sorted(want), len(ncp.writes), free_before),
+                          "startup-write-count")
+            ncp.writes.clear()
             tainted = False  # an applied-but-timed-out write makes the mirror relation unknowable for the host
 
             def view():
@@ -211,7 +238,68 @@ class Seq(Harness):
         vloop.run(main)
 
 
+class EndpointApi(Harness):
+    """The coordinator endpoint's add_to_group / remove_from_group on top of the real Multicast: what the host reports as
+    subscribed at this level is the endpoint's group membership."""
+
+    name = "c15_endpoint"
+    must_reach = ("added", "add-refused", "removed", "remove-refused", "remove-timeout")
+    functions = ("EZSPEndpoint.add_to_group", "EZSPEndpoint.remove_from_group", "Multicast.subscribe", "Multicast.unsubscribe")
+
+    def run(self, ctx, L=3):
+        import zigpy.device
+        import zigpy.zdo.types as zdo_t
+
+        import bellows.types as t
+        from bellows.multicast import Multicast
+        from bellows.zigbee.device import EZSPEndpoint
+        from refs import appshim
+
+        size = 1 + ctx.choice("size", 2)
+
+        async def main(loop):
+            ncp = Ncp(t, [None] * size)
+            app = appshim.make_app()
+            app._multicast = Multicast(ncp)
+            await app._multicast.startup(Coord(()))
+            dev = zigpy.device.Device(app, t.EUI64.convert("00:11:22:33:44:55:66:77"), 0x0000)
+            desc = zdo_t.SimpleDescriptor(endpoint=1, profile=260, device_type=5, device_version=0, input_clusters=[], output_clusters=[])
+            ep = EZSPEndpoint(dev, 1, desc)
+            for k in range(L):
+                g = GROUPS[ctx.choice("g%d" % k, 2)]
+                add = ctx.flag("add%d" % k)
+                member0 = set(int(x) for x in ep.member_of)
+                will_write = (g not in member0 and len(ncp.programmed()) < size) if add else (g in member0)
+                ans = "ok"
+                if will_write:
+                    kinds = ("ok", "reject-fatal", "reject-index", "reject-full", "timeout")
+                    ans = kinds[ctx.choice("ans%d" % k, len(kinds))]
+                    ncp.reject_status = {"reject-fatal": t.EmberStatus.ERR_FATAL, "reject-index": t.EmberStatus.INDEX_OUT_OF_RANGE,
+                                         "reject-full": t.EmberStatus.TABLE_FULL}.get(ans, t.EmberStatus.ERR_FATAL)
+                    ncp.answers = ["reject" if ans.startswith("reject") else ans]
+                raised = None
+                try:
+                    await (ep.add_to_group(g) if add else ep.remove_from_group(g))
+                except (ValueError, asyncio.TimeoutError) as e:
+                    raised = e
+                name = "%s(0x%04X) answered %s" % ("add_to_group" if add else "remove_from_group", g, ans)
+                member1 = set(int(x) for x in ep.member_of)
+                if will_write and ans == "ok":
+                    ctx.label("added" if add else "removed")
+                    ctx.check(raised is None, "%s raised %r" % (name, raised), "endpoint-ok-raises")
+                elif will_write:
+                    ctx.label(("add-refused" if add else ("remove-timeout" if ans == "timeout" else "remove-refused")))
+                    ctx.check(raised is not None, "%s: the table write failed but the call reported success" % name, "endpoint-failure-swallowed")
+                    ctx.check(member1 == member0, "%s: membership changed from %r to %r although the table write failed" % (name, sorted(member0), sorted(member1)), "endpoint-membership-on-failure")
+                ctx.check(member1 == ncp.programmed(), "after %s the endpoint reports groups %r, the NCP table has %r programmed" % (name, sorted(member1), sorted(ncp.programmed())),
+                          "endpoint-mirror")
+                ctx.observe(k, name, sorted(member1))
+
+        vloop.run(main)
+
+
 SEQ = Seq()
+ENDPOINT = EndpointApi()
 
 
 def main(tier):
@@ -225,10 +313,14 @@ def main(tier):
     ]
     if tier == "quick":
         c.run("checks.c15:SEQ", {"L": 3, "max_size": 2, "ngroups": 2, "applied": True})
+        c.run("checks.c15:SEQ", {"L": 1, "max_size": 3, "ngroups": 2, "applied": False, "boot": True})
+        c.run("checks.c15:ENDPOINT", {"L": 3})
         c.out_of_bounds += ["sequences longer than 3 operations, tables larger than 2, more than 2 groups (thorough: 4 / 4 / 3)", "table read failures during start-up"]
     else:
         c.run("checks.c15:SEQ", {"L": 4, "max_size": 3, "ngroups": 2, "applied": True})
         c.run("checks.c15:SEQ", {"L": 3, "max_size": 4, "ngroups": 3, "applied": False})
+        c.run("checks.c15:SEQ", {"L": 2, "max_size": 3, "ngroups": 2, "applied": False, "boot": True})
+        c.run("checks.c15:ENDPOINT", {"L": 4})
         c.out_of_bounds += ["sequences longer than 4 operations", "table read failures during start-up"]
     return c.finish()
 
